@@ -78,6 +78,10 @@ def sort_case(draw, tier, max_records=60, force_all_ref=None):
             rec["tags"] = rec["tags"] + ["ds:Z::40*ag:51"]  # minigraph >= 0.21
         elif k_ == 2:
             rec["tags"] = rec["tags"] + ["xx:i:1", "xx:i:2", "fl:f:-1.5e-3"]
+        elif k_ == 5:
+            # the twelve mandatory columns and nothing else
+            rec["tags"] = []
+            rec["cg"] = None
         elif k_ == 3:
             # the output of an earlier sort (other chromosome order), possibly realigned afterwards
             rec["tags"] = rec["tags"] + ["bo:i:%d" % draw(st.integers(0, 30)), "sn:Z:chr7", "iv:i:0"] + (["zz:Z:later"] if draw(st.booleans()) else [])
@@ -182,6 +186,16 @@ def run_sort(case, d):
                 res = core.cli(argv)
             finally:
                 os.chdir(cwd)
+        elif ind and len(case["gaf"]) % 4 == 1:
+            # --outind names the default location (<outgaf>.gsi) in another spelling: relative --outgaf, absolute --outind
+            ind = out + ".gsi"
+            argv = ["sort", inp, d + "/g.gfa", "--outgaf", "./" + os.path.basename(out), "--outind", ind] + (["--bgzip"] if case["bgzip_out"] else [])
+            cwd = os.getcwd()
+            os.chdir(d)
+            try:
+                res = core.cli(argv)
+            finally:
+                os.chdir(cwd)
         else:
             argv = ["sort", inp, d + "/g.gfa", "--outgaf", out] + (["--outind", ind] if ind else []) + (["--bgzip"] if case["bgzip_out"] else [])
             res = core.cli(argv)
@@ -261,8 +275,14 @@ def run_case(case):
         # the documented default: without --outgaf the sorted records go to standard output
         with core.workdir() as d:
             core.write_text(d + "/g.gfa", case["gfa"])
-            core.write_text(d + "/in.gaf", "".join(l + "\n" for l in lines))
-            r = core.cli(["sort", d + "/in.gaf", d + "/g.gfa"], capture_stdout=True)
+            inp_ = d + "/in.gaf"
+            if case.get("bgzf"):
+                inp_ = d + "/in.gaf.gz"  # a compressed input sorted to standard output
+                bgzf.write_bgzf(inp_, "".join(l + "\n" for l in lines).encode(), case["bgzf"]["cuts"], case["bgzf"]["empty"])
+                cl.append("stdout_from_bgzf_input")
+            else:
+                core.write_text(inp_, "".join(l + "\n" for l in lines))
+            r = core.cli(["sort", inp_, d + "/g.gfa"], capture_stdout=True)
         core.check(r[0] == "ok", "sort to standard output failed: %s", r)
         core.check(r[1].split("\n")[:-1] == out, "sort to standard output differs from --outgaf output")
         cl.append("stdout")
